@@ -107,6 +107,7 @@ func doValidateOpt(c *vlib.Ctx, sc scenario, withCase bool) {
 		return
 	}
 	v := decodeView(sc.body)
+	c.Eval()
 	if v == nil {
 		c.Count("validate:undecodable")
 		return
@@ -131,7 +132,6 @@ func doValidateOpt(c *vlib.Ctx, sc scenario, withCase bool) {
 		}
 		signer = id
 	}()
-	c.Eval()
 	c.Count("validate:" + kind)
 	rp := sc.replay("validate", "")
 	if withCase {
